@@ -63,6 +63,23 @@ def containers_of(children_sets, tier):
     return out
 
 
+def _max_len(spec):
+    kids = list(spec.get('items', [])) + [x for pr in spec.get('pairs', []) for x in pr]
+    return max([len(spec.get('items', [])), len(spec.get('pairs', []))] + [_max_len(k) for k in kids])
+
+
+def long_tuples():
+    """Tuples around the length at which infer_hint stops spelling out a fixed-length hint."""
+    I, S, F = {'c': 'int', 'v': 1}, {'c': 'str', 'v': 'a'}, {'c': 'float', 'v': '3/2'}
+    out = []
+    for n in (9, 10, 11, 12):
+        out.append({'c': 'tuple', 'items': [I] * n})
+        out.append({'c': 'tuple', 'items': [I, S] * (n // 2) + [I] * (n % 2)})
+        out.append({'c': 'tuple', 'items': [I] * (n - 1) + [F]})
+        out.append({'c': 'list', 'items': [{'c': 'tuple', 'items': [I] * (n - 1) + [S]}]})
+    return out
+
+
 def _hashable(spec):
     c = spec['c']
     if c in ('list', 'dict', 'set', 'deque', 'defaultdict', 'OrderedDict', 'Counter', 'ChainMap', 'UMutSeq', 'USet',
@@ -150,6 +167,11 @@ def cases(tier, seed):
             continue
         seen.add(name)
         out.append((name, sk, {}, {'gen': 'c20', 'spec': sk}))
+    for sk in long_tuples()[:: (2 if tier == 'quick' else 1)]:
+        name = spec_name(sk)
+        if name not in seen:
+            seen.add(name)
+            out.append((name, sk, {}, {'gen': 'c20', 'spec': sk}))
     for sh in cyclic_shapes(tier):
         out.append((f'cyclic:{sh}', {'cyclic': sh}, {}, {'gen': 'c20', 'cyclic': sh}))
     return out
@@ -316,7 +338,7 @@ def run_case(prop, name, spec, confkw, tier, src):
                                  'replay': write_replay('C20', {'kind': 'c20', 'hint': src, 'obj': spec, 'draw': 0}),
                                  'detail': f'{type(g.error).__name__}: {g.error}', 'hint': name, 'confkw': {}})
             return out
-        enc = Encoding(g, 4, node=node)
+        enc = Encoding(g, max(4, _max_len(spec)), node=node)
         d = Discharger(enc)
         shape = shape_constraints(enc.U, spec, enc.x)
         r0, _ = d.check(*shape)
